@@ -283,4 +283,15 @@ theorem execute_pieces {c : Conf} (st : HState) (a : AppRun) (h : (execute c st 
           rw [step_pieces hm, p2, p1, emitsOf_append]
           simp [emitsOf, List.append_assoc]
 
+/-- the roll-back of the error path keeps the invariant -/
+theorem rollback_inv {c : Conf} {pre : Bytes} {st : HState} (h : WInv c pre st) : WInv c pre (rollback st) := by
+  unfold rollback
+  by_cases hn : st.statusSent.isNone = true
+  · simp only [hn, if_true]
+    have hnone : st.statusSent = none := by simpa using hn
+    refine ⟨h.notDone, h.unsent, h.sent, fun ht => ?_⟩
+    have : st.headersSent = none := (h.unsent hnone).1
+    simp [this] at ht
+  · simp only [hn, Bool.false_eq_true, if_false]; exact h
+
 end Wz.RunWsgi
